@@ -145,6 +145,7 @@ impl Table {
                 )?;
             }
         }
+        writer.flush()?;
         Ok(())
     }
 }
